@@ -57,6 +57,10 @@ IOPS = {"proxy_iadd": "+=", "proxy_isub": "-=", "proxy_ior": "|=", "proxy_imul":
 RTE, TYE, IXE, KYE, OTHER = -1, -2, -3, -4, -9  # codes of spec/locals/Locals.tla
 
 
+class AppError(Exception):
+    """Raised by the WSGI app of an "mw" request with v = 3."""
+
+
 def iop_operand(op, v):
     """Operand of an augmented assignment (Locals.tla: IopArgs); fresh objects each time."""
     if op == "proxy_imul":
@@ -115,7 +119,7 @@ class Env:
     # -- executed inside the acting context ---------------------------------------------------
     def perform(self, o):
         """Run one operation in the *current* context; return the result record."""
-        from werkzeug.local import release_local
+        from werkzeug.local import LocalManager, release_local
 
         op = o["op"]
         try:
@@ -145,6 +149,29 @@ class Env:
             if op == "cleanup":
                 self.manager.cleanup()
                 return _ok()
+            if op == "release_dunder":
+                self.ns.__release_local__()
+                return _ok()
+            if op == "release_stack_dunder":
+                self.stack.__release_local__()
+                return _ok()
+            if op == "pop_all":  # LocalStack popped until it answers None
+                n = 0
+                while self.stack.pop() is not None and n < 64:
+                    n += 1
+                return {"tag": "int", "id": n, "exc": ""}
+            if op == "mkmgr":  # every documented call form of LocalManager
+                form = o["k"]
+                self.manager = (LocalManager() if form == "none" else LocalManager(self.ns) if form == "local"
+                                else LocalManager(self.stack) if form == "stack"
+                                else LocalManager([self.stack]) if form == "lstack"
+                                else LocalManager([self.ns, self.stack]))
+                return _ok()
+            if op == "mgr_append":
+                self.manager.locals.append(self.ns if o["k"] == "local" else self.stack)
+                return _ok()
+            if op == "mw":
+                return self._request(o)
             if op == "mkproxy":
                 self.make_proxy(o["k"])
                 return _ok()
@@ -185,6 +212,35 @@ class Env:
         except Exception:
             return {"c": c, "get": [{"n": n, "id": -1} for n in self.names], "iter": [], "top": -1,
                     "stack": [-1], "sval": [-1], "prox": []}
+
+    def _request(self, o):
+        """One WSGI request through the LocalManager middleware, in the current context."""
+        ns, stack, boxes = self.ns, self.stack, self.boxes
+
+        def application(environ, start_response):
+            if o["n"]:
+                setattr(ns, o["n"], boxes[o["b"]])
+            elif o["b"]:
+                stack.push(boxes[o["b"]])
+            if o["v"] == 3:
+                raise AppError("app failed")
+            start_response("200 OK", [("Content-Type", "text/plain")])
+            return [b"a", b"b"]
+
+        if o["k"] == "deco":
+            wrapped = self.manager.middleware(application)  # @manager.middleware
+        else:
+            wrapped = self.manager.make_middleware(application)
+        it = wrapped({"REQUEST_METHOD": "GET"}, lambda status, headers, exc_info=None: None)
+        try:
+            if o["v"] == 0:
+                for _ in it:
+                    pass
+            elif o["v"] == 2:
+                next(iter(it))
+        finally:
+            it.close()  # what a WSGI server does when the response has been sent
+        return _ok()
 
     # -- identification of objects (by identity) and of their state ------------------------------
     def _ident(self, obj):
@@ -618,6 +674,25 @@ def random_ops(rng, length, *, nctx=3, names=("x", "y", "z"), nboxes=12, vals=(0
     nmul = 0
     while len(ops) < length:
         c = rng.choice(alive)
+        if rng.random() < 0.09:  # LocalManager call forms and the other release paths
+            u = rng.random()
+            if u < 0.3:
+                ops.append(mkop(c, "cleanup"))
+                depth[c] = 0
+            elif u < 0.5:
+                ops.append(mkop(c, "mkmgr", k=rng.choice(["none", "local", "stack", "both", "lstack"])))
+            elif u < 0.6:
+                ops.append(mkop(c, "mgr_append", k=rng.choice(["local", "stack"])))
+            elif u < 0.85:
+                how = rng.random()
+                n, b = (rng.choice(names), rng.randint(1, nboxes)) if how < 0.5 else \
+                    ("", rng.randint(1, nboxes)) if how < 0.8 and depth[c] < max_stack else ("", 0)
+                if not n and b:
+                    depth[c] += 1
+                ops.append(mkop(c, "mw", n=n, b=b, v=rng.randint(0, 3), k=rng.choice(["make", "deco"])))
+            else:
+                ops.append(mkop(c, rng.choice(["release_dunder", "release_stack_dunder", "pop_all"])))
+            continue
         w = rng.random()
         if w < 0.10 and len(alive) < nctx:
             child = len(alive) + 1
@@ -649,7 +724,7 @@ def random_ops(rng, length, *, nctx=3, names=("x", "y", "z"), nboxes=12, vals=(0
             depth[c] = 0
         elif w < 0.80:
             ops.append(mkop(c, "cleanup"))
-            depth[c] = 0
+            depth[c] = 0  # (an upper bound is all `depth` is used for)
         elif w < 0.86 or not made:
             k = rng.choice(kinds)
             ops.append(mkop(c, "mkproxy", k=k))
